@@ -18,7 +18,12 @@ cp $SEED/demo_test.go $WT/$DEMO
 ( cd $WT/v4 && go test -vet=off -count=1 $PKG 2>&1 | tail -3 ) > /tmp/seedtest.clean.$$ 2>&1
 grep -q "^ok" /tmp/seedtest.clean.$$ && echo "demo on clean tree: PASS" || { echo "demo on clean tree: FAIL (bad demo)"; cat /tmp/seedtest.clean.$$; }
 rm -f $WT/$DEMO
-git -C $WT apply $SEED/patch.diff || { echo "patch does not apply"; exit 3; }
+if ! git -C $WT apply $SEED/patch.diff 2>/dev/null; then
+  BASE=$(python3 -c "import json,sys; print(json.load(open('$SEED/meta.json')).get('base_commit',''))" 2>/dev/null)
+  [ -n "$BASE" ] || { echo "patch does not apply"; exit 3; }
+  echo "patch does not apply to HEAD; using the commit it was written against ($BASE)"
+  git -C $WT checkout -q --detach $BASE && git -C $WT apply $SEED/patch.diff || { echo "patch does not apply"; exit 3; }
+fi
 ( cd $WT/v4 && go build ./... && go test -vet=off -count=1 ./... 2>&1 | tail -6 ) > /tmp/seedtest.suite.$$ 2>&1
 grep -q "FAIL\|cannot\|error" /tmp/seedtest.suite.$$ && { echo "suite with change: FAIL (not a valid seed)"; cat /tmp/seedtest.suite.$$; } || echo "suite with change: PASS"
 cp $SEED/demo_test.go $WT/$DEMO
